@@ -497,6 +497,13 @@ func runHarness(i *interpreter, fn *ssa.Function, name string, sol *solver, cfg 
 func runPath(i *interpreter, fn *ssa.Function, x *executor) {
 	defer func() {
 		r := recover()
+		if x.cfg.trace {
+			var ks []string
+			for _, d := range x.trace {
+				ks = append(ks, fmt.Sprintf("%s=%d", clip(d.key, 60), d.choice))
+			}
+			fmt.Fprintf(os.Stderr, "path decisions: %s\n", strings.Join(ks, " | "))
+		}
 		if r == nil {
 			x.res.PathsDone++
 			return
